@@ -10,7 +10,7 @@ ids = [json.loads(l)["id"] for l in open(os.path.join(HERE, "properties.jsonl"))
 hook_commits = subprocess.run(["git", "-C", "/repo", "log", "--format=%H", "--", "verif_hooks.go"], capture_output=True, text=True).stdout.split()
 m = {
     "version": 1,
-    "setup_cmd": "cd /verif/harness && GOFLAGS=-mod=mod GOPROXY=off GOSUMDB=off GOTOOLCHAIN=local go vet -tags verif . && GOFLAGS=-mod=mod GOPROXY=off GOSUMDB=off GOTOOLCHAIN=local go test -c -race -tags verif -o /dev/null .",
+    "setup_cmd": "cd /verif/harness && GOFLAGS=-mod=mod GOPROXY=off GOSUMDB=off GOTOOLCHAIN=local go vet -tags verif . && GOFLAGS=-mod=mod GOPROXY=off GOSUMDB=off GOTOOLCHAIN=local go test -c -race -gcflags=all=-l -tags verif -o /dev/null .",
     "hooks": {
         "guard": "verif",
         "enable": "go test -c -tags verif (harness module /verif/harness replaces pgregory.net/rapid => /repo; the only hook file is /repo/verif_hooks.go, //go:build verif)",
